@@ -182,6 +182,8 @@ def fault_op(rng: random.Random, snap: observe.Snap, ctx: Ctx):
         cat = faults.bad_calls(snap, ctx)
         if snap.flags["measured"]:
             cat = cat + faults.after_measure_calls(snap, ctx)
+        if ctx.profile.get("fork_faults"):
+            cat = cat + faults.fork_calls(snap, ctx)
         allow = ctx.profile.get("bad_filter")
         if allow:
             cat = [c for c in cat if c[0].split("/")[0] in allow]
@@ -362,6 +364,8 @@ def run_enumerated(
         cat = faults.bad_calls(snap, ctx)
         if snap.flags["measured"]:
             cat = cat + faults.after_measure_calls(snap, ctx)
+        if profile.get("fork_faults"):
+            cat = cat + faults.fork_calls(snap, ctx)
         ctx.stats["enumerated_bad_calls"] += len(cat)
         for tag, op in cat:
             ctx.stats["fault/bad/configured"] += 1
